@@ -1055,6 +1055,23 @@ class Interp:
             raise AnalysisError(f"{self.where(node)}: comparison {o} on {a.cls.qualname}")
         if isinstance(b, Instance):
             return self.compare(_swap_op(t)(), b, a, node)
+        if isinstance(a, (tuple, list)) and isinstance(b, (tuple, list)) and o in ("==", "!=") \
+                and (_has_abstract(a) or _has_abstract(b)):
+            # structural comparison, element by element, like CPython
+            if type(a) is not type(b):
+                res = False
+            elif len(a) != len(b):
+                res = False
+            else:
+                res = True
+                for x, y in zip(a, b):
+                    r = self.compare(ast.Eq(), x, y, node)
+                    if not self.truth(r, node):
+                        res = False
+                        break
+            return res if o == "==" else (not res)
+        if (a is None or b is None) and o in ("==", "!=") and not is_sym(a) and not is_sym(b):
+            return (a is b) if o == "==" else (a is not b)
         if hasattr(a, "v_compare"):
             r = a.v_compare(o, b, self)
             if r is not NotImplemented:
@@ -1342,6 +1359,12 @@ def _hashable(v):
     if isinstance(v, FieldVal):
         return Term("fieldval", (v.cls.qualname if v.cls else "FQ", v.v), "field")
     return v
+
+
+def _has_abstract(v):
+    if isinstance(v, (tuple, list)):
+        return any(_has_abstract(x) for x in v)
+    return is_sym(v) or isinstance(v, Instance)
 
 
 def _item_sorts(t, n, idx=None):
